@@ -51,6 +51,7 @@ type PathResult struct {
 	Unknowns   int          `json:"unknowns"`
 	SchedSteps int          `json:"sched_steps"`
 	Sample     string       `json:"sample,omitempty"`
+	Model      map[string][]uint64 `json:"model,omitempty"`
 	Funcs      map[string]int `json:"-"`
 }
 
@@ -426,6 +427,7 @@ func (p *pathState) sampleString() string {
 	if !ok {
 		return ""
 	}
+	p.res.Model = m
 	keys := make([]string, 0, len(m))
 	for k := range m {
 		keys = append(keys, k)
